@@ -1,0 +1,11 @@
+//go:build verif
+
+// Machine-checked contracts for package common (comment-only file; see /verif/DESIGN.md).
+package common
+
+//@ func CalculateArithmeticShift
+//@   props C12 C13 C20 C05
+//@   split shift -63..63
+//@   requires shift >= 0 ==> in64(index * pow2(shift))
+//@   ensures r0 == ashift(index, shift)
+//@ end
